@@ -33,7 +33,17 @@ PC = {'P': {'entry': 0, 'self.sem_prefetch.acquire': 1, 'asyncio.wait': 2, 'done
 
 def generate(src):
     FN = {n: src.func(REL, 'Receiver.' + n) for n in ('__init__', 'listen', 'prefetcher', 'runner')}
-    TASK_CB = src.func(REL, 'Receiver.runner', nested='task_cb')
+    # ---- role binding (locals are identified by what they do, not by their names)
+    tcb = [n_ for n_ in ast.walk(FN['runner']) if isinstance(n_, ast.FunctionDef) and 'self.sem.release' in ast.unparse(n_)]
+    if len(tcb) != 1: raise Unsupported("runner: expected exactly one nested done-callback that releases the execution slot")
+    TCB = tcb[0].name; TASK_CB = src.func(REL, 'Receiver.runner', nested=TCB)
+    cnt = {n_.left.id for n_ in ast.walk(FN['prefetcher']) if isinstance(n_, ast.Compare) and isinstance(n_.left, ast.Name) and len(n_.comparators) == 1 and ast.unparse(n_.comparators[0]) == 'self.max_tasks_to_execute'}
+    if len(cnt) != 1: raise Unsupported("prefetcher: expected exactly one local compared with self.max_tasks_to_execute (the hand-over counter)")
+    FETCHED = cnt.pop()
+    sets_ = [(n_.target.id if isinstance(n_, ast.AnnAssign) else n_.targets[0].id) for n_ in ast.walk(FN['runner']) if isinstance(n_, (ast.AnnAssign, ast.Assign)) and n_.value is not None and ast.unparse(n_.value) == 'set()'
+             and isinstance((n_.target if isinstance(n_, ast.AnnAssign) else n_.targets[0]), ast.Name)]
+    if len(sets_) != 1: raise Unsupported("runner: expected exactly one local set of live callback tasks")
+    TASKS = sets_[0]
     A, P, N = Ints('A P N'); hasA, hasT = Bool('hasA'), Bool('has_wait_timeout')
     j_, k_ = Ints('j_ k_')
     def symstate(tag):
@@ -151,7 +161,7 @@ def generate(src):
         return k(st, ('CORO_CALLBACK', m.e if isinstance(m, PyInt) else Val.i(to_val(m)), kw.get('raise_err', False)))
     def h_add_done_callback(ex, st, e, recv, args, kw, k, K):
         g = G(st)
-        ok = len(args) == 1 and isinstance(args[0], PyCallable) and args[0].name == 'task_cb' and recv == 'HANDLE_CB'
+        ok = len(args) == 1 and isinstance(args[0], PyCallable) and args[0].name == TCB and recv == 'HANDLE_CB'
         oblige(st, "runner/add_done_callback: task_cb is attached to the callback task just created  [C03]", And(BoolVal(ok), g['cb_pending_attach'] == 1), props=['C03'], witness=wit(g), replay=RP)
         setG(st, cb_pending_attach=IntVal(0)); return k(st, None)
     def h_is_set(ex, st, e, recv, args, kw, k, K): return k(st, PyBool(G(st)['fin']))
@@ -163,7 +173,7 @@ def generate(src):
             return k(st, Tok(lambda s, k2, K2: ex.suspend(s, 'asyncio.wait', lambda x: BoolVal(True), lambda x: None, lambda x: k2(x, PyTuple([PyBool(Or(G(x)['la'] == 2, G(x)['la'] == 3)), None])))))
         tk = [x for x in e.keywords if x.arg == 'timeout']
         oblige(st, "runner/drain: waits for the live callback tasks with timeout=self.wait_tasks_timeout  [C05]",
-               BoolVal(bool(tk) and ast.unparse(tk[0].value) == 'self.wait_tasks_timeout' and len(e.args) == 1 and ast.unparse(e.args[0]) == 'tasks'), props=['C05'])
+               BoolVal(bool(tk) and ast.unparse(tk[0].value) == 'self.wait_tasks_timeout' and len(e.args) == 1 and ast.unparse(e.args[0]) == TASKS), props=['C05'])
         if not (args and isinstance(args[0], PyBool)): raise Unsupported("runner waits on something other than the set of live callback tasks")
         rw = [x for x in e.keywords if x.arg == 'return_when']
         all_completed = not rw or ast.unparse(rw[0].value) in ('asyncio.ALL_COMPLETED', 'ALL_COMPLETED')
@@ -202,11 +212,11 @@ def generate(src):
             return super().ev_Attribute(e, st, k, K)
         def ev_Name(self, e, st, k, K):
             if e.id == 'QUEUE_DONE': return k(st, PyInt(IntVal(SENT)))
-            if e.id == 'tasks': return k(st, PyBool(G(st)['started'] - G(st)['done_cb'] > 0))
-            if e.id == 'task_cb': return k(st, PyCallable('task_cb'))
+            if e.id == TASKS: return k(st, PyBool(G(st)['started'] - G(st)['done_cb'] > 0))
+            if e.id == TCB: return k(st, PyCallable(TCB))
             return super().ev_Name(e, st, k, K)
         def ev_Set(self, e, st, k, K):
-            if len(e.elts) == 1 and ast.unparse(e.elts[0]) == 'current_message': return k(st, 'SET_LA')
+            if len(e.elts) == 1 and isinstance(e.elts[0], ast.Name) and st.env.get(e.elts[0].id) == 'HANDLE_LA': return k(st, 'SET_LA')
             return k(st, 'SET')
         def compare(self, op, l, r, st):
             if isinstance(op, (ast.Is, ast.IsNot)) and isinstance(l, PyInt) and isinstance(r, PyInt):
@@ -220,13 +230,16 @@ def generate(src):
                 return eq if isinstance(op, ast.Eq) else Not(eq)
             return super().compare(op, l, r, st)
         def st_While(self, s, st, k, K):
-            if ast.unparse(s.test) != 'True': raise Unsupported("while loop other than `while True` in the receiver protocol")
+            if s.orelse: raise Unsupported("while/else in the receiver protocol")
             depth = [0]
             def loop(st2):
                 depth[0] += 1
                 if depth[0] > 60: raise Unsupported("a cycle of the receiver loop passes no suspending await (segment extraction does not terminate)")
                 K2 = dict(K); K2['brk'] = k; K2['cont'] = loop
-                r = self.block(s.body, st2, loop, K2); depth[0] -= 1; return r
+                def body(s3): return self.block(s.body, s3, loop, K2)
+                if ast.unparse(s.test) == 'True': r = body(st2)
+                else: r = self.ev(s.test, st2, lambda s3, v: self.branch(s3, truthy(v), body, k), K)          # `while cond:` == `while True: if not cond: break`
+                depth[0] -= 1; return r
             return loop(st)
         def st_FunctionDef(self, s, st, k, K): nested[s.name] = s; return k(st)
         def st_AsyncFunctionDef(self, s, st, k, K): nested[s.name] = s; return k(st)
@@ -236,7 +249,7 @@ def generate(src):
             if any(w in txt for w in ('self.sem', 'queue.', 'create_task', 'self.callback', 'finish_event', '.cancel()', 'break', 'return', 'await ')): raise Unsupported("for loop touching the receiver protocol: " + ast.unparse(s.iter))
             return k(st)
         def find_handler(self, name, recv=None):
-            if name in nested and name != 'task_cb':
+            if name in nested and name != TCB:
                 def h_nested(ex_, st_, e, r_, args, kw, k, K): return k(st_, ('CORO_NESTED', name, args, kw))
                 return h_nested
             return super().find_handler(name, recv)
@@ -246,13 +259,13 @@ def generate(src):
             return Exec._st_Try_raw(self, s, st, k, K)
         def st_AugAssign(self, s, st, k, K):
             def done(s2):
-                if ast.unparse(s.target) == 'fetched_tasks': setG(s2, fetched=self.as_int(s2.env['fetched_tasks']))
+                if ast.unparse(s.target) == FETCHED: setG(s2, fetched=self.as_int(s2.env[FETCHED]))
                 return k(s2)
             return super().st_AugAssign(s, st, done, K)
-    H = {'logger.*': noop, 'self.broker.listen': h_listen, 'iterator.__anext__': h_anext, 'asyncio.create_task': h_create_task, 'self.callback': h_callback, 'finish_event.is_set': h_is_set,
+    H = {'logger.*': noop, 'self.broker.listen': h_listen, '*.__anext__': h_anext, 'asyncio.create_task': h_create_task, 'self.callback': h_callback, '*.is_set': h_is_set,
          'self.sem_prefetch.acquire': h_sp_acquire, 'self.sem_prefetch.release': h_sp_release, 'self.sem.acquire': h_sa_acquire, 'self.sem.release': h_sa_release, 'asyncio.wait': h_wait,
-         'current_message.result': h_result, 'current_message.cancel': h_cancel, 'queue.put': h_put, 'queue.get': h_get, 'tasks.add': noop, 'task.add_done_callback': h_add_done_callback,
-         'tasks.discard': noop, 'len': noop, 'set': h_set}
+         '*.result': h_result, '*.cancel': h_cancel, 'queue.put': h_put, 'queue.get': h_get, '*.add': noop, '*.add_done_callback': h_add_done_callback,
+         '*.discard': noop, 'len': noop, 'set': h_set}
 
     # ---------------- Receiver.__init__: the semaphores are built from the configured limits  [C03/C04]
     init_vals = {}
@@ -294,7 +307,7 @@ def generate(src):
                 if len(s.items) != 1 or ast.unparse(s.items[0].context_expr) != 'anyio.create_task_group()': raise Unsupported("listen(): async with " + ast.unparse(s.items[0].context_expr))
                 st.env = dict(st.env); st.env[s.items[0].optional_vars.id] = 'GROUP'
                 return self.block(s.body, st, lambda s2: k(s2), K)
-        exl = ExL({'logger.*': noop, 'asyncio.Queue': h_queue, 'gr.start_soon': h_start_soon, 'self.broker.startup': lambda ex, st, e, r, a, kw, k, K: k(st, Tok(lambda s, k2, K2: k2(s, None))),
+        exl = ExL({'logger.*': noop, 'asyncio.Queue': h_queue, '*.start_soon': h_start_soon, 'self.broker.startup': lambda ex, st, e, r, a, kw, k, K: k(st, Tok(lambda s, k2, K2: k2(s, None))),
                    'self.on_exit': noop})
         exl.ev_Attribute = (lambda orig: (lambda e, st, k, K: k(st, fresh('attr')) if ast.unparse(e) in ('self.run_startup', 'self.on_exit') else k(st, PyCallable(ast.unparse(e)))))(exl.ev_Attribute)
         st = State(); st.env = {'self': PyObj(Int('self_a')), 'finish_event': 'EVENT'}
@@ -314,7 +327,7 @@ def generate(src):
         g['sp'] = P; g['sa'] = If(hasA, A, 0); g['cb_pending_attach'] = IntVal(0); return g           # established by the __init__ obligations above (A = max_async_tasks, P = max_prefetch)
     base = [A >= 1, P >= 0, N >= 0]
     def run_thread(thread, fname):
-        ex = Ex(thread, H); f = FN[fname]
+        ex = Ex(thread, H); ex.inline_scope = (src, REL, 'Receiver'); f = FN[fname]
         st = State(); st.ghost = init_ghost(); st.env = {'self': PyObj(Int('self_a')), 'queue': 'QUEUE', 'finish_event': 'EVENT'}
         ex.cur_from = 'entry'; ex.cur_pre = None
         def escapes(s, x): oblige(s, f"{fname}/raises: no exception escapes the coroutine (a stream end must still hand over the sentinel; an escaping error would tear down listen())  [C01/C05]", BoolVal(False), props=['C01', 'C05'], witness=wit(G(s)), replay=RP)
@@ -326,8 +339,8 @@ def generate(src):
             key = todo[0]; done.add(key); guard, effect, k, env = conts[key]
             pre = symstate(f"_{thread}{len(done)}"); st = State(); st.ghost = dict(pre); st.ghost['cb_pending_attach'] = IntVal(0); st.env = dict(env)
             if thread == 'P':
-                if 'fetched_tasks' not in st.env: raise Unsupported("prefetcher: local counter `fetched_tasks` not found (role: messages handed over so far)")
-                st.env['fetched_tasks'] = PyInt(pre['fetched'])
+                if FETCHED not in st.env: raise Unsupported("prefetcher: the hand-over counter is not bound at this cut point")
+                st.env[FETCHED] = PyInt(pre['fetched'])
             st.pc.append(pre['pc' + thread] == PC[thread][key[1]]); st.pc += base
             for c in Inv(pre).values(): (st.facts if is_quantifier(c) else st.pc).append(c)
             st.pc.append(guard(st)); effect(st)
